@@ -45,7 +45,23 @@ Inductive ocase :=
 | CDst (sr : Z) (src vol0 prm0 : Z) (cbs : list dcb) (tab : list (Z * Z * Z))
 | CSnd (streaming : Z) (sr : Z) (src vol0 rate0 pan0 : Z) (st : ostart) (cbs : list scb) (tab : list (Z * Z * Z))
 | CTrk (sr : Z) (src vol0 route0 send0 main0 : Z) (cbs : list kcb) (tab : list (Z * Z * Z))
-| CMod (c : C17.Run.case).
+| CMod (c : C17.Run.case)
+(** a sound played with a fade-in tween ([settings.fade_in_tween = Some fade]: start time and duration, zero
+    included, are the tween's) *)
+| CSndF (streaming : Z) (sr : Z) (src vol0 rate0 pan0 : Z) (st : ostart) (fade : otw) (cbs : list scb) (tab : list (Z * Z * Z))
+(** a history of set / update on a bare [Parameter<ClockSpeed>]; values are coded [unit * 2^64 + bits] *)
+| CPCS (init : C06.Run.rtarget) (default : Z) (ops : list C06.Run.rop) (tab : list (Z * Z * Z)).
+
+(** [ClockSpeed] as one integer: unit (0 seconds per tick, 1 ticks per second, 2 ticks per minute) times 2^64 plus the
+    bits of the number; a NaN in unit [u] is [-(u + 1)] *)
+Definition cs_of_bits (z : Z) : cspeed f64 :=
+  let u := if z <? 0 then - (z + 1) else z / 2 ^ 64 in
+  let x := if z <? 0 then f64_of_bits (-1) else f64_of_bits (z mod 2 ^ 64) in
+  if u =? 0 then SecondsPerTick x else if u =? 1 then TicksPerSecond x else TicksPerMinute x.
+Definition cs_to_bits (s : cspeed f64) : Z :=
+  let '(u, x) := match s with SecondsPerTick x => (0, x) | TicksPerSecond x => (1, x) | TicksPerMinute x => (2, x) end in
+  let b := bits_of_f64 x in
+  if b <? 0 then - (u + 1) else u * 2 ^ 64 + b.
 
 (** [Tweenable for f32]: [a + (b - a) * amount as f32] *)
 Definition olerp32 (a b : f32) (amount : f64) : f32 := add32 a (mul32 (sub32 b a) (f64_to_f32 amount)).
@@ -121,6 +137,9 @@ Section Run.
     Definition snd_init (vol0 rate0 pan0 : Z) (st : ostart) : dsound f64 f32 :=
       dsound_new f32 osilence oidentity oposition (f32_of_bits vol0) (f64_of_bits rate0) (f32_of_bits pan0)
         (mk_ostart st) None.
+    Definition snd_init_fade (vol0 rate0 pan0 : Z) (st : ostart) (fade : otw) : dsound f64 f32 :=
+      dsound_new f32 osilence oidentity oposition (f32_of_bits vol0) (f64_of_bits rate0) (f32_of_bits pan0)
+        (mk_ostart st) (Some (mk_otw fade)).
   End Snd.
 
   (** ** sub-track (a constant sound of amplitude [c] on it) -> send route -> send track -> main track *)
@@ -286,6 +305,11 @@ Definition orun (c : ocase) : list Z :=
   | CTrk sr src vol0 route0 send0 main0 cbs tab =>
       go_trk tab sr (f32_of_bits src) (trk_init vol0 route0 send0 main0) cbs
   | CMod c17 => C17.Run.run c17
+  | CSndF streaming sr src vol0 rate0 pan0 st fade cbs tab =>
+      let str := negb (streaming =? 0) in
+      go_snd tab str sr (f32_of_bits src) (snd_init_fade str sr vol0 rate0 pan0 st fade) cbs
+  | CPCS init d ops tab =>
+      C06.Run.run_param (cspeed f64) (@cspeed_interpolate f64 Num_f64) cs_of_bits cs_to_bits tab init d ops
   end.
 
 (** the case type of the C06 correspondence check: the bare-[Parameter] cases of C06/Run.v and the
